@@ -10,7 +10,7 @@ use std::collections::BTreeSet;
 use std::sync::atomic::{AtomicU64, Ordering};
 use std::sync::{Arc, Mutex};
 
-const CALLS: [(&str, &str); 13] = [
+const CALLS: [(&str, &str); 16] = [
   ("All", r#"{A: 5, S: "abcz"}"#),
   ("Quote", r#"{A: 500, S: "xyz"}"#),
   ("All", r#"{A: 42, S: "aeiouz"}"#),
@@ -25,6 +25,10 @@ const CALLS: [(&str, &str); 13] = [
   ("Rate", r#"{}"#),
   ("Scale", r#"{x: 3}"#),
   ("Svc", r#"{A: 5}"#),
+  // date and time values of one named zone on the day of a daylight-saving change, before and after the change, and in another zone
+  ("Zone", r#"{S: "2021-03-28T01:30:00@Europe/Warsaw"}"#),
+  ("Zone", r#"{S: "2021-03-28T12:00:00@Europe/Warsaw"}"#),
+  ("Zone", r#"{S: "2021-03-28T12:00:00@America/New_York"}"#),
 ];
 
 fn ctx(text: &str) -> FeelContext {
@@ -39,8 +43,10 @@ fn main() {
   let threads = plan.len();
   let stack = 16 << 20;
   // every call made alone: one loom execution with a single worker
+  // (one execution per call: statics of the instrumented crates live for one execution, so what a call leaves behind in a
+  // lazily initialised static cannot reach the value another call has when made alone)
   let alone: Arc<Mutex<Vec<String>>> = Arc::new(Mutex::new(vec![]));
-  {
+  for (inv, c) in CALLS {
     let alone = alone.clone();
     let xml = xml.clone();
     loom::model(move || {
@@ -51,11 +57,8 @@ fn main() {
         .spawn(move || {
           let defs = dmntk_model::parse(&xml).expect("model parses");
           let me = dmntk_model_evaluator::ModelEvaluator::new(&defs).expect("model builds");
-          let mut v = vec![];
-          for (inv, c) in CALLS {
-            v.push(me.evaluate_invocable(inv, &ctx(c)).to_string());
-          }
-          *alone.lock().unwrap() = v;
+          let v = me.evaluate_invocable(inv, &ctx(c)).to_string();
+          alone.lock().unwrap().push(v);
         })
         .unwrap()
         .join()
